@@ -30,7 +30,7 @@ FUNCTIONS = [
 ]
 MUST_REACH = ["parse.IMAPClientCommand._p_mailbox", "user_server.IMAPUserServer.get_mailbox", "user_server.IMAPUserServer.folder_exists", "mbox.Mailbox.create", "mbox.Mailbox.delete", "mbox.Mailbox.rename"]
 BOUNDS = {
-    "quick": {"name": "optional leading '/' + up to 3 components from {'..', '.', '', 'a', 'decoy', 'inbox'}, written as atom / quoted / literal", "commands": "13 command kinds, one command (RENAME: both names)"},
+    "quick": {"name": "optional leading '/' + up to 3 components from {'..', '.', '', 'a', 'decoy', 'inbox'} (third component from {'..', 'a'}), written as atom / quoted / literal", "commands": "13 command kinds, one command (RENAME: both names)"},
     "thorough": {"commands": "a preparatory CREATE of the same name, then the command"},
 }
 SYMBOLIC = ["component selectors", "leading slash", "string form selector"]
@@ -67,11 +67,12 @@ def _is_atom(s):
 
 def confine(lead: bool, n: int, c1: int, c2: int, c3: int, form: int) -> bool:
     """
-    pre: 1 <= n <= 3 and 0 <= c1 < 6 and 0 <= c2 < 6 and 0 <= c3 < 6 and 0 <= form <= 2
+    pre: 1 <= n <= 3 and 0 <= c1 < 6 and 0 <= c2 < 6 and 0 <= c3 < core.PARAMS.get("n3", 6) and 0 <= form <= 2
     pre: (n > 1 or c2 == 0) and (n > 2 or c3 == 0)
     post: _
     """
-    return held(_confine, {"lead": bool(core.pick(int(lead), 0, 2)), "n": core.pick(n, 1, 4), "c1": core.pick(c1, 0, 6), "c2": core.pick(c2, 0, 6), "c3": core.pick(c3, 0, 6), "form": core.pick(form, 0, 3)})
+    third = [0, 3, 4, 1, 2, 5]  # '..', 'a', 'decoy' first: a reduced third-component alphabet keeps the hostile ones
+    return held(_confine, {"lead": bool(core.pick(int(lead), 0, 2)), "n": core.pick(n, 1, 4), "c1": core.pick(c1, 0, 6), "c2": core.pick(c2, 0, 6), "c3": third[core.pick(c3, 0, core.PARAMS.get("n3", 6))], "form": core.pick(form, 0, 3)})
 
 
 def _confine(lead, n, c1, c2, c3, form):
@@ -150,7 +151,7 @@ def jobs(tier):
     T = 400 if q else 1500
     js = []
     for kind in KINDS:
-        js.append({"name": f"confine[{kind}]", "fn": "confine", "params": {"kind": kind}, "timeout": T, "per_path": 120, "unblock": UNBLOCK})
+        js.append({"name": f"confine[{kind}]", "fn": "confine", "params": {"kind": kind, "n3": 2 if q else 6}, "timeout": T if q else 3000, "per_path": 120, "unblock": UNBLOCK})
         if not q:
             js.append({"name": f"confine[{kind},prep]", "fn": "confine", "params": {"kind": kind, "prep": True}, "timeout": T, "per_path": 120, "unblock": UNBLOCK})
     return js
